@@ -25,3 +25,25 @@ CHECKS["C05"] = dict(
          "and accept/reject verdict are compared with an independent location-counter model; states are deduplicated on the full observable state.",
     note="Trusts the Python reference model (engine/ref/directives.py) and the Intel-HEX decoder (engine/ref/formats.py); bounded by "
          "alphabet and depth given in the evidence.")
+
+CHECKS["C09"] = dict(
+    level="model_checking", design_ref="DESIGN.md 4/C09",
+    technique="exhaustive enumeration of abstract programs (macro/define/equ/set/repeat/include structure x parameter counts x argument texts x "
+              "invocation positions), differential oracle: abstraction vs generator-made hand expansion on the real assembler",
+    text="Every abstract program of the stated menus (macros with 0-12 parameters, bodies of 1-3 statements, six to twelve argument texts, four "
+         "invocation positions, 1-3 invocations, macro chains to depth 6, defines with and without parameters in five spellings, .repeat 1/2/3/17, "
+         "includes incl. nested and sub-directory, all ordered pairs/triples of seven units) is rendered with the abstractions and hand-expanded; both "
+         "are assembled by naken_asm and must give the same image and label table.",
+    note="The hand expansion is produced by the generator (textual substitution of whole identifiers), so arguments that make substitution ambiguous "
+         "are excluded; cases whose expansion is itself rejected are counted but not judged.")
+
+CHECKS["C10"] = dict(
+    level="model_checking", design_ref="DESIGN.md 4/C10",
+    technique="exhaustive enumeration of condition-expression trees and of conditional block structures (nesting <= 3, sequences <= 3) plus every "
+              "single-directive deletion/insertion, each assembled by the real assembler and compared with a conditional-assembly reference interpreter",
+    text="Every condition expression of the stated grammar slice (atoms incl. defines, labels, defined(); !, == < > <= >=, && ||, parentheses; chains of "
+         "three and four comparisons) and every block structure of .if/.ifdef/.ifndef/.else/.endif of the stated menus, with markers, labels, defines "
+         "and macro definitions in the branches, is assembled and compared with the reference; every structure with one directive deleted or a stray "
+         ".else/.endif inserted at every position must be rejected without an output file when the reference calls it malformed.",
+    note="Trusts engine/ref/cond.py (C precedence); two chained comparisons are never posed without parentheses; undefined names and non-numeric "
+         "defines occur only inside defined().")
